@@ -341,7 +341,15 @@ impl Database {
 
         if dirty_regions.is_empty() {
             debug!("{}: flush (no dirty)", self);
-            self.layout_mut().promote_pending_holes(self.name());
+            let mut layout = self.layout_mut();
+            // A removal zeroes its metadata slot without leaving a dirty region behind:
+            // make it durable before the freed extent becomes reusable (or punchable).
+            if layout.has_pending_holes() {
+                let regions = self.regions();
+                regions.flush()?;
+                regions.sync_data()?;
+            }
+            layout.promote_pending_holes(self.name());
             return Ok(0);
         }
 
